@@ -1,4 +1,5 @@
 import PtnModel.Proofs.EvoCancel
+import PtnModel.Proofs.EvoExample
 /-!
 # C09 — TDVP is exact on a complete manifold and exactly time-reversible
 
@@ -80,5 +81,31 @@ theorem step_cancel {k : EvoKernels 𝕜 ℝ} {L R : T3 𝕜} {W : T4 𝕜} {A A
     A2.d0 = A.d0 ∧ A2.d1 = A.d1 ∧ A2.d2 = A.d2 ∧
       ∀ s a b, s < A.d0 → a < A.d1 → b < A.d2 → A2.f s a b = A.f s a b :=
   localStep_cancel hN hF hH hE hX h1 hE' hX' h2 hexp
+
+/-- non-vacuity of `step_cancel`, all hypotheses except `C15.Exhausted` (whose satisfiability together with successful
+forward and backward runs is shown on the vector level by the example for `krylov_cancel` above): the Hermitian
+one-site operator `exW = [[1, i], [-i, -1]]` between trivial blocks, start tensor `exA = (1, 0)`, kernels `exK`
+(`dexp ≡ 1`, so `E(a) E(-a) = 1`), one Lanczos iteration; both local steps return. -/
+example : ∃ A1 A2 : T3 ℂ, NormContract exK.cnorm ∧
+    LocalFits (ones111 : T3 ℂ) ones111 exW exA.d0 exA.d1 exA.d2 ∧
+    LocalHermitian (ones111 : T3 ℂ) ones111 exW exA.d0 exA.d1 exA.d2 ∧
+    C15.EighAt (localHFun (ones111 : T3 ℂ) ones111 exW exA.d0 exA.d1 exA.d2) exK.cnorm exK.deigh (flat3 exA) 1 ∧
+    localHamiltonianStep exK ones111 ones111 exW exA Complex.I 1 = .ok A1 ∧
+    C15.EighAt (localHFun (ones111 : T3 ℂ) ones111 exW exA.d0 exA.d1 exA.d2) exK.cnorm exK.deigh (flat3 A1) 1 ∧
+    localHamiltonianStep exK ones111 ones111 exW A1 (-Complex.I) 1 = .ok A2 ∧
+    ∀ x : ℝ, exK.dexp (Complex.I * (x : ℂ)) * exK.dexp (-Complex.I * (x : ℂ)) = 1 := by
+  obtain ⟨A1, h1⟩ := localStep_ok_one (k := exK) rfl (L := ones111) (R := ones111) (W := exW) exA_pos Complex.I
+  -- the evolved tensor has the norm of the start tensor (`C08.local_step_unitary`), hence positive norm
+  obtain ⟨a0, a1, a2, hfr⟩ := localStep_norm (t := -1) sqrtNorm_contract exLocal_fits exLocal_herm (eighAt_one _ _ _)
+    exK_exp (by simp) h1
+  have hpos : 0 < exK.cnorm (flat3 A1) := by
+    show 0 < sqrtNorm (flat3 A1)
+    have h0 : 0 < sqrtNorm (flat3 exA) := exA_pos
+    unfold sqrtNorm at h0 ⊢
+    rw [sqNorm_flat3] at h0 ⊢
+    rw [hfr]; exact h0
+  obtain ⟨A2, h2⟩ := localStep_ok_one (k := exK) rfl (L := ones111) (R := ones111) (W := exW) hpos (-Complex.I)
+  exact ⟨A1, A2, sqrtNorm_contract, exLocal_fits, exLocal_herm, eighAt_one _ _ _, h1, eighAt_one _ _ _, h2,
+    fun _ => by simp [exK]⟩
 
 end Ptn.C09
